@@ -111,6 +111,7 @@ var c19Kinds = []struct {
 	{"AttReqSecond", []string{"AttReq"}}, {"RepReqSecond", []string{"RepReq"}}, // a second open form of each kind
 	// governance sets parameters to the lowest values validation accepts / to values unlike the defaults
 	{"ParamsZeroSecond", nil}, {"ParamsAltSecond", nil},
+	{"AddRecordSecond", []string{"AddRecord"}}, // a second sub-record, added out of alphabetical order
 }
 
 func (s C19) Events(env world.Env, mm mc.Model) []string {
@@ -120,7 +121,7 @@ func (s C19) Events(env world.Env, mm mc.Model) []string {
 		if has(m.Done, k.name) {
 			continue
 		}
-		if !s.Deep && (k.name == "BuyStorageSecond" || k.name == "AttReqSecond" || k.name == "RepReqSecond" || strings.HasPrefix(k.name, "Params")) {
+		if !s.Deep && (k.name == "BuyStorageSecond" || k.name == "AttReqSecond" || k.name == "RepReqSecond" || k.name == "AddRecordSecond" || strings.HasPrefix(k.name, "Params")) {
 			continue // reachable only far beyond the depth of the search from the empty state: explored by the Deep variant
 		}
 		ok := true
@@ -196,6 +197,8 @@ func c19Do(env world.Env, m *c19Model, ev string) bool {
 			w.App.MintKeeper.SetParams(ctx, mp)
 		})
 		return ok
+	case "AddRecordSecond":
+		msg = rnstypes.NewMsgAddRecord(u, "alpha.jkl", "aaa", u, "{}")
 	case "BuyStorageSecond":
 		msg = storagetypes.NewMsgBuyStorage(b, b, 60, 2_000_000_000, "ujkl")
 	case "AttReqSecond":
